@@ -317,8 +317,42 @@ func inlineFile(p *packages.Package, f *ast.File, src []byte, uniq *int, counts 
 		}
 		cd := &candidate{decl: fd, obj: obj, key: key, tailOnly: hasOtherDefer}
 		if hasOtherDefer {
-			// named results could be modified by the deferred calls after the return values are set: keep it simple
-			if fd.Type.Results != nil && len(fd.Type.Results.List) > 0 {
+			// NAMED results could be modified by the deferred calls after the return values are set: keep it simple. Unnamed
+			// results are fixed when the helper's return statement is evaluated; such a helper may be expanded where its call
+			// is the operand of a return statement (`return h(x)`): its deferred calls then run right after the results are
+			// set and before anything else — as they did — and before the caller's own, earlier registered, deferred calls
+			named := false
+			if fd.Type.Results != nil {
+				for _, r := range fd.Type.Results.List {
+					if len(r.Names) > 0 {
+						named = true
+					}
+				}
+			}
+			if named {
+				// … unless no deferred call can reach them: a deferred closure, or a deferred call given the address of
+				// something, could; `defer mu.Unlock()` cannot
+				ast.Inspect(fd.Body, func(n ast.Node) bool {
+					if ds, isD := n.(*ast.DeferStmt); isD {
+						if _, isLit := ds.Call.Fun.(*ast.FuncLit); isLit {
+							bad = true
+						}
+						for _, a := range ds.Call.Args {
+							ast.Inspect(a, func(m ast.Node) bool {
+								if u, isU := m.(*ast.UnaryExpr); isU && u.Op == token.AND {
+									bad = true
+								}
+								if _, isLit := m.(*ast.FuncLit); isLit {
+									bad = true
+								}
+								return true
+							})
+						}
+					}
+					return true
+				})
+			}
+			if bad {
 				continue
 			}
 			lockedDefer = nil
@@ -361,6 +395,13 @@ func inlineFile(p *packages.Package, f *ast.File, src []byte, uniq *int, counts 
 	tailStmts := map[ast.Stmt]bool{}
 	var visitStmts func(list []ast.Stmt)
 	var lowerStmt func(st ast.Stmt) bool
+	// what each edit was counted for: an edit nested inside another one is dropped when the edits are applied (the outer
+	// text was produced from the unedited source), so its calls are still there and must not count as inlined
+	type editRec struct {
+		pos, end int
+		hit      map[*types.Func]int
+	}
+	var recs []editRec
 	handle := func(st ast.Stmt) bool {
 		call, form := inlinableCall(st)
 		if call == nil || cands[calleeFunc(p.TypesInfo, call)] == nil {
@@ -371,7 +412,7 @@ func inlineFile(p *packages.Package, f *ast.File, src []byte, uniq *int, counts 
 		if c == nil || usedAsValue[callee] || call.Ellipsis.IsValid() {
 			return false
 		}
-		if c.tailOnly && !(tailStmts[st] && form == "expr") {
+		if c.tailOnly && !(tailStmts[st] && form == "expr") && form != "return" {
 			return false
 		}
 		// not inside the helper itself, and not a call nested in another candidate's body that is itself about to vanish is fine
@@ -384,6 +425,7 @@ func inlineFile(p *packages.Package, f *ast.File, src []byte, uniq *int, counts 
 		counts[c.key]++
 		here[callee]++
 		n++
+		recs = append(recs, editRec{off(st.Pos()), off(st.End()), map[*types.Func]int{callee: 1}})
 		return true
 	}
 	// helper calls in expression position (conditions, operands, arguments): hoisted in evaluation order
@@ -396,15 +438,24 @@ func inlineFile(p *packages.Package, f *ast.File, src []byte, uniq *int, counts 
 		endLine := fset.Position(st.End()).Line
 		file := fset.Position(st.Pos()).Filename
 		edits = append(edits, edit{off(st.Pos()), off(st.End()), text + fmt.Sprintf("\n//line %s:%d\n", file, endLine)})
+		hit := map[*types.Func]int{}
 		for fn, k := range lw.hit {
 			counts[cands[fn].key] += k
 			here[fn] += k
+			hit[fn] = k
 		}
 		n += lw.n
+		recs = append(recs, editRec{off(st.Pos()), off(st.End()), hit})
 		return true
 	}
+	visited := map[ast.Stmt]bool{}
 	visitStmts = func(list []ast.Stmt) {
 		for _, st := range list {
+			// (an else-if body is reached both through its if statement and through the generic descent: once is enough)
+			if visited[st] {
+				continue
+			}
+			visited[st] = true
 			if bs, isBlock := st.(*ast.BlockStmt); isBlock {
 				visitStmts(bs.List)
 				continue
@@ -475,7 +526,22 @@ func inlineFile(p *packages.Package, f *ast.File, src []byte, uniq *int, counts 
 			})
 		}
 	}
-	if n == 0 {
+	for i, r := range recs {
+		for j, o := range recs {
+			if i != j && o.pos <= r.pos && r.end <= o.end && (o.pos < r.pos || r.end < o.end) {
+				for fn, k := range r.hit {
+					here[fn] -= k
+					counts[cands[fn].key] -= k
+					if counts[cands[fn].key] <= 0 {
+						delete(counts, cands[fn].key)
+					}
+					n -= k
+				}
+				break
+			}
+		}
+	}
+	if n <= 0 {
 		return src, 0
 	}
 	// 3. count the calls that remain after this round (anywhere in the package); remove helpers with none
@@ -490,6 +556,9 @@ func inlineFile(p *packages.Package, f *ast.File, src []byte, uniq *int, counts 
 		})
 	}
 	for fn, c := range cands {
+		if os.Getenv("VERIF_DEBUG_INL") != "" {
+			fmt.Fprintf(os.Stderr, "INL %s: remaining=%d here=%d usedAsValue=%v calledFromOther=%v\n", fn.Name(), remaining[fn], here[fn], usedAsValue[fn], calledFromOtherCandidate(p, cands, fn))
+		}
 		if usedAsValue[fn] {
 			continue
 		}
@@ -2256,6 +2325,26 @@ func unrollSmallRanges(p *packages.Package, f *ast.File, src []byte, counts map[
 			return true
 		}
 		if !bodyOK(rs.Body, loopVars) {
+			return true
+		}
+		// the elements are written inside the scope of the new `key := …; value := …` declarations: they must not mention
+		// those names (they would be captured)
+		captured := false
+		for _, el := range lit.Elts {
+			ast.Inspect(el, func(c ast.Node) bool {
+				if id, isId := c.(*ast.Ident); isId && (id.Name == keyName || id.Name == valName) && id.Name != "" {
+					captured = true
+				}
+				return true
+			})
+		}
+		ast.Inspect(at.Elt, func(c ast.Node) bool {
+			if id, isId := c.(*ast.Ident); isId && (id.Name == keyName || id.Name == valName) && id.Name != "" {
+				captured = true
+			}
+			return true
+		})
+		if captured {
 			return true
 		}
 		elt := text(at.Elt)
